@@ -11,6 +11,7 @@
   trees do not depend on the history of the call.
 -/
 import Depccg.GlueRun
+import Depccg.Glue
 
 namespace Depccg
 namespace Lazy
@@ -149,6 +150,36 @@ def runBatchWith (pick : Pick) (G : CatGrammar) (categories roots : List Cat) (c
 def runBatch (G : CatGrammar) (categories roots : List Cat) (cfg : Cfg) (maxLength : Option Nat)
     (doc : List SentIn) : Except Err (List (Except Err SentResult × Outcome) × GSt) :=
   runBatchWith pickHeap G categories roots cfg maxLength doc
+
+/-! ### `depccg.parsing.run` (parsing.py) over `_parsing.run`: chunks and worker processes -/
+
+/-- the results of the chunks, in order; the first failing chunk's exception propagates
+    (`task.get()` re-raises) -/
+def collect {α : Type} : List (Except Err (List α)) → Except Err (List α)
+  | [] => .ok []
+  | .error e :: _ => .error e
+  | .ok r :: rest =>
+    match collect rest with
+    | .error e => .error e
+    | .ok rs => .ok (r ++ rs)
+
+/-- one `_parsing.run` call as `parsing.run` sees it: the per-sentence results -/
+def callResults (G : CatGrammar) (categories roots : List Cat) (cfg : Cfg) (maxLength : Option Nat)
+    (doc : List SentIn) : Except Err (List (Except Err SentResult)) :=
+  match runBatch G categories roots cfg maxLength doc with
+  | .error e => .error e
+  | .ok (outs, _) => .ok (outs.map (·.1))
+
+/-- `depccg.parsing.run` after `_type_check`: one call when the document has at most
+    `max_chunk_size` sentences, otherwise `_chunks(…, processes)` and one call per chunk (each in its
+    own worker process, each with a fresh category table and rule cache), results concatenated in
+    chunk order -/
+def parsingRun (G : CatGrammar) (categories roots : List Cat) (cfg : Cfg) (maxLength : Option Nat)
+    (maxChunk procs : Nat) (doc : List SentIn) : Except Err (List (Except Err SentResult)) :=
+  if doc.length ≤ maxChunk then callResults G categories roots cfg maxLength doc
+  else match Glue.chunks doc procs with
+    | .error e => .error e
+    | .ok cs => collect (cs.map (callResults G categories roots cfg maxLength))
 
 end Lazy
 end Depccg
